@@ -398,3 +398,57 @@ func (c *Cluster) DeliverX(q string, tr timeutil.TimeRange, run *LeafRun, opt De
 
 // ErrRootNotDone: all responses and the completion were delivered, yet the root still blocks in WaitResponse.
 var ErrRootNotDone = fmt.Errorf("vbox: root context not completed after all responses and Complete were delivered")
+
+// RootRun is a fresh real root (plan + send stages already run) whose events the caller delivers itself,
+// one call per event, from whatever goroutine / controlled thread it likes.
+type RootRun struct {
+	root    *queryctx.RootMetricContext
+	tracker *trackerpkg.StageTracker
+	run     *LeafRun
+	cancel  context.CancelFunc
+}
+
+// NewRootRun creates the root for the query and layout of `run`; clone = statement cloned through JSON.
+func (c *Cluster) NewRootRun(q string, tr timeutil.TimeRange, run *LeafRun, clone bool) (*RootRun, error) {
+	ctx, cancel := context.WithTimeout(context.Background(), 60*time.Second)
+	var stmtJSON []byte
+	if clone {
+		stmtJSON = run.stmtJSON
+	}
+	root, _, err := c.newRoot(ctx, q, tr, run.Leaves, stmtJSON)
+	if err != nil {
+		cancel()
+		return nil, err
+	}
+	tracker, planErr, err := runRootPlan(ctx, root)
+	if err == nil && planErr != nil {
+		err = fmt.Errorf("root plan failed: %w", planErr)
+	}
+	if err != nil {
+		cancel()
+		return nil, err
+	}
+	return &RootRun{root: root, tracker: tracker, run: run, cancel: cancel}, nil
+}
+
+// Respond delivers the response of leaf i.
+func (r *RootRun) Respond(i int) { r.root.HandleResponse(r.run.Resps[i], r.run.Leaves[i].Node) }
+
+// Complete delivers the root pipeline's completion.
+func (r *RootRun) Complete() { r.root.Complete(nil) }
+
+// Done reports whether the context is done (doneCh closed: tryClose creates the tracker's stats right before).
+func (r *RootRun) Done() bool { return r.tracker.GetStats() != nil }
+
+// Wait is WaitResponse; call it only when Done() (it blocks on a real channel otherwise).
+func (r *RootRun) Wait() (*commonmodels.ResultSet, error) {
+	out, err := r.root.WaitResponse()
+	if err != nil {
+		return nil, err
+	}
+	rs, _ := out.(*commonmodels.ResultSet)
+	return rs, nil
+}
+
+// Close releases the root's context.
+func (r *RootRun) Close() { r.cancel() }
